@@ -33,6 +33,8 @@ fn value_of_class(rng: &mut Rng, class: &str) -> String {
         "nonascii" => format!("{}-é✓", base),
         "long" => "L".repeat(rng.range(60, 200) as usize),
         "quote_semicolon" => format!("{}'; SET work_mem TO '1MB", base),
+        // values of different clients that differ in nothing but letter case
+        "case_variant" => rng.pick(&["Reports", "reports", "REPORTS", "rePorts"]).to_string(),
         _ => base,
     }
 }
@@ -49,6 +51,8 @@ const CLASSES: &[&str] = &[
     "nonascii",
     "long",
     "quote_semicolon",
+    "case_variant",
+    "case_variant",
 ];
 
 #[derive(Clone, Debug)]
@@ -87,8 +91,8 @@ fn scenario(seed: u64, rep: &Report) -> Result<(), String> {
             let mut opts = StartupOpts::new(USER, "db", PASS);
             let mut last_class: BTreeMap<String, String> = BTreeMap::new();
             // startup parameter set
-            let app_class = *rng.pick(&["plain", "space", "single_quote", "double_quote", "backslash", "semicolon", "nonascii", "long"]);
-            let app = format!("{}-{}", cid, value_of_class(&mut rng, app_class));
+            let app_class = *rng.pick(&["plain", "space", "single_quote", "double_quote", "backslash", "semicolon", "nonascii", "long", "case_variant", "case_variant"]);
+            let app = if app_class == "case_variant" { value_of_class(&mut rng, app_class) } else { format!("{}-{}", cid, value_of_class(&mut rng, app_class)) };
             opts = opts.param("application_name", &app);
             last_class.insert("application_name".into(), format!("startup_{}", app_class));
             let mut supplied = vec![("application_name".to_string(), app.clone(), app_class.to_string())];
